@@ -11,6 +11,7 @@ the private key cannot produce an answer that decrypts under the temporary key")
 -/
 import TdModel.Lemmas.C10
 import TdModel.Lemmas.C10Prog
+import TdModel.Lemmas.C10Bytes
 
 namespace TdModel.C09
 open TdModel
@@ -43,6 +44,42 @@ theorem client_success_implies {Ct} (P : XP Ct) (cfg : CCfg) (t : CTape) (ms : L
     omega
   · rw [← hh, powMod_eq]
   · rw [hr, powMod_eq]
+
+/-- The same on the byte level: the client fed frame *payloads* (`crunB`: TL decoding per step with
+the layouts regenerated from package mt, primitives on byte strings) ends in `done` only if the
+first three payloads TL-decode — ResPQ.Decode, DecodeServerDHParams, DecodeSetClientDHParamsAnswer —
+to a ResPQ / server_DH_params_ok / dh_gen_ok carrying the client's nonce and one server nonce, the
+`encrypted_answer` bytes decrypt (`DecryptExchangeAnswer` under the temporary key) to bytes that
+TL-decode to server_DH_inner_data with the same nonces, and the decoded numbers pass `CheckDH` /
+`CheckDHParams` and the decoded hash equals `NonceHash1(new_nonce, g_a^b mod p)`. -/
+theorem client_success_implies_bytes (B : XPB) (cfg : CCfg) (t : CTape) (ps : List Bytes) (r : CResult)
+    (h : (crunB B cfg t .waitResPQ ps).1 = .done r) :
+    ∃ p1 p2 p3 rest sn pq fps fp ans plain d hash,
+      ps = p1 :: p2 :: p3 :: rest ∧
+      decServerMsg 0 p1 = .resPQ t.nonce sn pq fps ∧
+      decServerMsg 1 p2 = .dhOk t.nonce sn ans ∧
+      decServerMsg 2 p3 = .genOk t.nonce sn hash ∧
+      fp ∈ cfg.keys ∧ fp ∈ fps ∧ pq ≤ 2 ^ 63 ∧ 1 < pq ∧ B.isPrime pq = false ∧
+      B.ansDec (tempAESKeys B.sha1 t.newNonce sn) ans = some plain ∧ decSInner plain = some d ∧
+      d.nonce = t.nonce ∧ d.serverNonce = sn ∧
+      checkDH B.isPrime d.g d.dhPrime = true ∧
+      checkDHParams d.dhPrime d.g.toNat d.gA (d.g.toNat ^ t.b % d.dhPrime) = true ∧
+      hash = nonceHash1 B.sha1 t.newNonce (keyBytes (d.gA ^ t.b % d.dhPrime)) ∧
+      r = ⟨d.gA ^ t.b % d.dhPrime, serverSalt t.newNonce sn, t.sessionId⟩ := by
+  obtain ⟨p1, p2, p3, rest, sn, pq, fps, fp, p, q, ans, d, hash, hps, h1, h2, h3, hsel, hpq, hcomp, _, hdec, hn, hsn,
+    hdh, hpar, hh, hr⟩ := crunB_done B cfg t ps r h
+  have hmem := selectKey_mem _ _ _ hsel
+  have hdec' : (B.ansDec (tempAESKeys B.sha1 t.newNonce sn) ans).bind decSInner = some d := hdec
+  cases hp : B.ansDec (tempAESKeys B.sha1 t.newNonce sn) ans with
+  | none => rw [hp] at hdec'; simp at hdec'
+  | some plain =>
+    rw [hp] at hdec'
+    have hpm : pqMax = 2 ^ 63 := by decide
+    refine ⟨p1, p2, p3, rest, sn, pq, fps, fp, ans, plain, d, hash, hps, h1, h2, h3, hmem.1, hmem.2, by omega,
+      hcomp.1, hcomp.2, hp, by simpa using hdec', hn, hsn, hdh, ?_, ?_, ?_⟩
+    · rw [← powMod_eq]; exact hpar
+    · rw [← hh, powMod_eq]
+    · rw [hr, powMod_eq]
 
 /-- Unsafe DH parameters are always refused: whatever else the message contains, a
 Server_DH_Params whose (correctly decrypting) inner data has a generator outside 2…7, a prime that is
